@@ -218,7 +218,7 @@ func refGlob(p, s []byte) bool {
 	return len(s) > 0 && s[0] == p[0] && refGlob(p[1:], s[1:])
 }
 
-var c07Alpha = []byte{'a', 'b', '*', '/', '.', '\n', '\\', '(', '[', '+'}
+var c07Alpha = []byte{'a', 'b', '*', '/', '.', '\n', '\\', '(', '[', '+', '|'}
 
 // random valid-UTF-8 string of up to maxRunes runes
 func randUTF8(r *rand.Rand, maxRunes int) []byte {
@@ -293,6 +293,24 @@ func c07Generate(o Opts, emit func(c07Input)) {
 			pat = patFromName(r, name)
 		}
 		emit(c07Input{Kind: "pair", Pat: pat, Name: name})
+	}
+	// split pairs: (p, x+c+y) and (p+c+x, y) share every concatenation pattern+c+name; an answer that
+	// depends on anything but the two arguments separately (a memo keyed by a joined string, say)
+	// shows on one of the two, whichever is asked first
+	seps := []byte{'|', ':', ',', ' ', 0, '#', '=', '\t', '/', '\n', ';', '-', '_', '.'}
+	for i := 0; i < npairs/5; i++ {
+		c := seps[r.IntN(len(seps))]
+		x, y := randUTF8(r, 4), randUTF8(r, 4)
+		base := [][]byte{[]byte("*"), []byte("a*"), []byte("*a"), randUTF8(r, 3)}[r.IntN(4)]
+		n1 := append(append(append([]byte{}, x...), c), y...)
+		p2 := append(append(append([]byte{}, base...), c), x...)
+		if r.IntN(2) == 0 {
+			emit(c07Input{Kind: "pair", Pat: base, Name: n1})
+			emit(c07Input{Kind: "pair", Pat: p2, Name: y})
+		} else {
+			emit(c07Input{Kind: "pair", Pat: p2, Name: y})
+			emit(c07Input{Kind: "pair", Pat: base, Name: n1})
+		}
 	}
 	actions := []string{"get", "info", "put", "activate", "delete", "list", ""}
 	names := [][]byte{[]byte("a"), []byte("a/b"), []byte("prod/db/key"), []byte("dev/x"), []byte(""), []byte("_internal/x"), []byte("a\nb")}
